@@ -64,6 +64,7 @@ class E3:
         self.sites = 0        # transfer functions applied at call sites
         self.analysed = set()
         self.obligation_sites = {}   # key -> status (for evidence: discharged ones too)
+        self.par_extend_sites = set()
 
     # -- state helpers
     @staticmethod
@@ -243,6 +244,7 @@ class E3:
             st[k0] = E
         elif sh in GROWING:
             if sh == 'par_extend' and self.par_extend_requires:
+                self.par_extend_sites.add(self.top_fn(fn.name))
                 self.need_empty(fn, bi, st, k0, summary, 'par_extend-receiver', 'the payoff cache filled by par_extend is valid for one pass only')
             elif consumes_entry and cur == IN:
                 summary.requires.setdefault(k0, 'grown before being emptied (%s)' % fn.where(bi))
